@@ -410,7 +410,7 @@ impl Repair {
     { unimplemented!() }
 
 /*@ extract src/repair.rs :: impl Repair<N>/fn handle_response
-props C14
+props C14 C15
 elide-async
 rewrite*[R9] `block_id.clone()` => `verif_clone_block_id(block_id)`
 rewrite[R4] `for slice in last_slice.until() {` => `let mut verif_s: usize = 0; while verif_s <= last_slice.inner() { let slice = SliceIndex(verif_s); verif_s += 1;`
@@ -464,6 +464,8 @@ before `let request_hash = response.request_type().hash();`
         let ghost resp0 = response;
 before `let mut verif_s: usize = 0;`
         proof {
+            // [C15.last_slice_claim_needs_last_leaf_proof C14.last_slice_claim_needs_last_leaf_proof] what is recorded as the block's last
+            // slice was proved to be the LAST leaf (not just some leaf) under the block hash
             assert(last_proven(block_id.1, last_slice)) by { assert(spec_check_proof_last(root, last_slice.0 as int, block_id.1, proof)); }
             assert forall|b: BlockId| #[trigger] self.last_slices@.contains_key(b) implies last_proven(b.1, self.last_slices@[b]) by {
                 assert(self.last_slices@ == pre.last_slices@.insert(*block_id, last_slice));
